@@ -605,7 +605,7 @@ class C12(common.Prop):
         return case
 
     def gen_cases(self, rng, tier):
-        n = 360 if tier == "quick" else 6000
+        n = 900 if tier == "quick" else 40000
         maxlen = 8 if tier == "quick" else 20
         for i in range(n):
             r = rng.random()
